@@ -372,6 +372,9 @@ def run(corrupt=None):
     cfgs = configs_for(ck.tier)
     run_configs(ck, cfgs, table, corrupt=corrupt)
     target_identity(ck, 4, ck.seed)
+    # "as the run command wires the sampler up": run()'s option handling up to the arguments of the chain
+    from .. import lossprob
+    lossprob.bind(ck, "C01", 24, (0,), ck.seed, want_spec=False, want_order=False, want_terms=False, want_wiring=True)
     # mechanism level (diagnostic for this property): swarms of real updates must be behaviours of PGibbsSM
     from .. import pgtrace
     total, unmatched, violated = pgtrace.mechanism_check(ck, "C01", ck.tier == "thorough", 1 + ck.seed)
